@@ -96,3 +96,6 @@ def run(ctx):
     r7_3(ctx, fx)
     ctx.rule("R7.4", "every switch over status handles all three enumerators")
     S.status_switches(ctx, "R7.4", fx, "PIP_Problem", ALL, floor=1)
+    from rules import dirty
+    fxd = ctx.extract([F.lib_unit("PIP_Tree.cc"), F.lib_unit("PIP_Problem.cc")])
+    dirty.run(ctx, "R7.5", fxd, lambda f: True, 30, "judged on PIP_Tree.cc and PIP_Problem.cc")
